@@ -55,6 +55,8 @@ pub fn check(tier: Tier) -> Check {
     parts.push(Part::new("C05/ops", json!({"depth": tier.pick(4, 5), "nomatch": true}), 1, tier.pick(40, 600)));
     // acknowledgements whose content (reason string, user properties) takes more than 127 bytes
     parts.push(Part::new("C05/ops", json!({"depth": tier.pick(4, 5), "longtag": true}), 0, tier.pick(40, 600)));
+    // operations outstanding while messages arrive for live, dropped and never-taken streams
+    parts.push(Part::new("C05/streams", json!({"depth": tier.pick(4, 6)}), 0, tier.pick(30, 400)));
     // a sliding window of 2 .. 8 outstanding operations over 60 rounds (short-form and long-form acks)
     parts.push(Part::new("C05/sliding", json!({}), 0, 120));
     // acknowledgements without content: failing ones then take the reason-only form (remaining length 3)
@@ -347,6 +349,9 @@ pub fn sliding(prop: &'static str, name: String, params: Value) -> Scenario {
 }
 
 pub fn scenario(name: &str, params: &Value) -> Scenario {
+    if name == "C05/streams" {
+        return super::c15::streams("C05", name.to_string(), params.clone());
+    }
     if name == "C05/sliding" {
         return sliding("C05", name.to_string(), params.clone());
     }
